@@ -197,7 +197,12 @@ func makeField(v reflect.Value, params fieldParameters) (encoder, error) {
 		tag.class = ClassUniversal
 		tag.constructed = false
 		tag.tagNumber = TagBitString
-		berType.value = bitStringEncoder(v.Interface().(BitString))
+		bitString := v.Interface().(BitString)
+		if uint64(len(bitString.Bytes)) != (bitString.BitLength+7)/8 {
+			// x.690 8.6.2: the unused-bits octet refers to the last of exactly ceil(BitLength/8) content octets
+			return nil, fmt.Errorf("ber: bit string of %d bits given in %d octets", bitString.BitLength, len(bitString.Bytes))
+		}
+		berType.value = bitStringEncoder(bitString)
 	case ObjectIdentifierType:
 		err := fmt.Errorf("Unsupport ObjectIdenfier type")
 		return bytesEncoder(nil), err
